@@ -2115,16 +2115,21 @@ func (p *produceRequest) tryAddBatch(produceVersion int32, recBuf *recBuf, batch
 	}
 
 	if partitions, exists := p.batches.bs[recBuf.topic]; !exists {
-		if topicIDs {
-			batchWireLength += 16 + 1 + 1 // topic ID size, compact array len for 1 item, empty tag section ending the topic (if we are using topic IDs, we are definitely flexible)
+		lt := int32(len(recBuf.topic))
+		var topicLength int32
+		if flexible {
+			topicLength = uvarlen(len(recBuf.topic)) + lt + 1 + 1 // compact string len, topic, compact array len for 1 item, empty tag section ending the topic
 		} else {
-			lt := int32(len(recBuf.topic))
-			if flexible {
-				batchWireLength += uvarlen(len(recBuf.topic)) + lt + 1 + 1 // compact string len, topic, compact array len for 1 item, empty tag section ending the topic
-			} else {
-				batchWireLength += 2 + lt + 4 // string len, topic, partition array len
-			}
+			topicLength = 2 + lt + 4 // string len, topic, partition array len
 		}
+		// Topic IDs replace the name at v13+, but the request can be
+		// pinned below v13 after we size it (see produceMax), and before
+		// the first produce response we do not know the version at all:
+		// in both cases, we size for the larger of the two encodings.
+		if (topicIDs || produceVersion < 0) && topicLength < 16+1+1 {
+			topicLength = 16 + 1 + 1 // topic ID size, compact array len for 1 item, empty tag section ending the topic
+		}
+		batchWireLength += topicLength
 	} else if flexible {
 		// If the topic exists and we are flexible, adding this
 		// partition may increase the length of our size prefix.
